@@ -28,6 +28,7 @@ use crate::cpc::compression_data::LENGTH_LIMITED_UNARY_ENCODING_TABLE65;
 use crate::cpc::determine_correct_offset;
 use crate::cpc::determine_flavor;
 use crate::cpc::pair_table::PairTable;
+use crate::error::Error;
 
 #[derive(Default)]
 pub(super) struct CompressedState {
@@ -355,20 +356,46 @@ pub(super) struct UncompressedState {
 }
 
 impl CompressedState {
-    pub fn uncompress(&self, lg_k: u8, num_coupons: u32) -> UncompressedState {
-        match determine_flavor(lg_k, num_coupons) {
+    /// Rebuilds table and window from the compressed words of an image.
+    ///
+    /// The words come from outside: they are checked against the header fields (flavor implied
+    /// by the coupon count, number of pairs, stream lengths) instead of being trusted.
+    pub fn uncompress(&self, lg_k: u8, num_coupons: u32) -> Result<UncompressedState, Error> {
+        let k = 1u64 << lg_k;
+        let flavor = determine_flavor(lg_k, num_coupons);
+        let has_table = !self.table_data.is_empty();
+        let has_window = !self.window_data.is_empty();
+        let flags_ok = match flavor {
+            Flavor::Empty => !has_table && !has_window,
+            Flavor::Sparse | Flavor::Hybrid => has_table && !has_window,
+            Flavor::Pinned | Flavor::Sliding => has_window,
+        };
+        if !flags_ok
+            || num_coupons as u64 > 64 * k
+            || self.table_num_entries > num_coupons
+            // a pair takes at least two bits, a window byte at least one
+            || self.table_num_entries as u64 > 16 * self.table_data.len() as u64
+            || (has_window && 32 * (self.window_data.len() as u64) < k)
+            || determine_correct_offset(lg_k, num_coupons) > 56
+        {
+            return Err(Error::deserial(
+                "corrupted: header fields are inconsistent with the compressed data",
+            ));
+        }
+        let state = match flavor {
             Flavor::Empty => UncompressedState {
                 table: PairTable::new(2, lg_k + 6),
                 window: vec![],
             },
-            Flavor::Sparse => self.uncompress_sparse_flavor(lg_k),
-            Flavor::Hybrid => self.uncompress_hybrid_flavor(lg_k),
-            Flavor::Pinned => self.uncompress_pinned_flavor(lg_k, num_coupons),
-            Flavor::Sliding => self.uncompress_sliding_flavor(lg_k, num_coupons),
-        }
+            Flavor::Sparse => self.uncompress_sparse_flavor(lg_k)?,
+            Flavor::Hybrid => self.uncompress_hybrid_flavor(lg_k)?,
+            Flavor::Pinned => self.uncompress_pinned_flavor(lg_k, num_coupons)?,
+            Flavor::Sliding => self.uncompress_sliding_flavor(lg_k, num_coupons)?,
+        };
+        Ok(state)
     }
 
-    fn uncompress_sparse_flavor(&self, lg_k: u8) -> UncompressedState {
+    fn uncompress_sparse_flavor(&self, lg_k: u8) -> Result<UncompressedState, Error> {
         debug_assert!(self.window_data.is_empty(), "window is not expected");
         debug_assert!(!self.table_data.is_empty(), "table is expected");
 
@@ -377,15 +404,15 @@ impl CompressedState {
             self.table_data_words,
             self.table_num_entries,
             lg_k,
-        );
+        )?;
 
-        UncompressedState {
+        Ok(UncompressedState {
             table: PairTable::from_slots(lg_k, self.table_num_entries, pairs),
             window: vec![],
-        }
+        })
     }
 
-    fn uncompress_hybrid_flavor(&self, lg_k: u8) -> UncompressedState {
+    fn uncompress_hybrid_flavor(&self, lg_k: u8) -> Result<UncompressedState, Error> {
         debug_assert!(self.window_data.is_empty(), "window is not expected");
         debug_assert!(!self.table_data.is_empty(), "table is expected");
 
@@ -394,7 +421,7 @@ impl CompressedState {
             self.table_data_words,
             self.table_num_entries,
             lg_k,
-        );
+        )?;
 
         // In the hybrid flavor, some of these pairs actually belong in the window, so we will
         // separate them out, moving the "true" pairs to the bottom of the array.
@@ -414,13 +441,17 @@ impl CompressedState {
             }
         }
 
-        UncompressedState {
+        Ok(UncompressedState {
             table: PairTable::from_slots(lg_k, next_true_pair, pairs),
             window,
-        }
+        })
     }
 
-    fn uncompress_pinned_flavor(&self, lg_k: u8, num_coupons: u32) -> UncompressedState {
+    fn uncompress_pinned_flavor(
+        &self,
+        lg_k: u8,
+        num_coupons: u32,
+    ) -> Result<UncompressedState, Error> {
         debug_assert!(!self.window_data.is_empty(), "window is expected");
 
         let mut window = vec![];
@@ -430,34 +461,41 @@ impl CompressedState {
             &mut window,
             lg_k,
             num_coupons,
-        );
+        )?;
         let num_pairs = self.table_num_entries;
         let table = if num_pairs == 0 {
             PairTable::new(2, lg_k + 6)
         } else {
-            debug_assert!(!self.table_data.is_empty(), "table is expected");
+            if self.table_data.is_empty() {
+                return Err(Error::deserial("corrupted: table is expected"));
+            }
             let mut pairs = uncompress_surprising_values(
                 &self.table_data,
                 self.table_data_words,
                 num_pairs,
                 lg_k,
-            );
+            )?;
             // undo the compressor's 8-column shift
             for i in 0..num_pairs {
                 let i = i as usize;
-                assert!(
-                    (pairs[i] & 63) < 56,
-                    "pair column index is invalid: {}",
-                    pairs[i]
-                );
+                if (pairs[i] & 63) >= 56 {
+                    return Err(Error::deserial(format!(
+                        "corrupted: pair column index is invalid: {}",
+                        pairs[i]
+                    )));
+                }
                 pairs[i] += 8;
             }
             PairTable::from_slots(lg_k, num_pairs, pairs)
         };
-        UncompressedState { table, window }
+        Ok(UncompressedState { table, window })
     }
 
-    fn uncompress_sliding_flavor(&self, lg_k: u8, num_coupons: u32) -> UncompressedState {
+    fn uncompress_sliding_flavor(
+        &self,
+        lg_k: u8,
+        num_coupons: u32,
+    ) -> Result<UncompressedState, Error> {
         debug_assert!(!self.window_data.is_empty(), "window is expected");
 
         let mut window = vec![];
@@ -467,28 +505,38 @@ impl CompressedState {
             &mut window,
             lg_k,
             num_coupons,
-        );
+        )?;
         let num_pairs = self.table_num_entries;
         let table = if num_pairs == 0 {
             PairTable::new(2, lg_k + 6)
         } else {
-            debug_assert!(!self.table_data.is_empty(), "table is expected");
+            if self.table_data.is_empty() {
+                return Err(Error::deserial("corrupted: table is expected"));
+            }
             let mut pairs = uncompress_surprising_values(
                 &self.table_data,
                 self.table_data_words,
                 num_pairs,
                 lg_k,
-            );
+            )?;
             let pseudo_phase = determine_pseudo_phase(lg_k, num_coupons);
+            if pseudo_phase >= 16 {
+                // the sliding flavor only occurs in the steady-state phases
+                return Err(Error::deserial("corrupted: invalid phase for a sliding sketch"));
+            }
             let permutation = &COLUMN_PERMUTATIONS_FOR_DECODING[pseudo_phase as usize];
             let offset = determine_correct_offset(lg_k, num_coupons);
-            assert!(offset <= 56, "offset is invalid: {offset}");
 
             for i in 0..num_pairs {
                 let i = i as usize;
                 let row_col = pairs[i];
                 let row = row_col >> 6;
                 let mut col = (row_col & 63) as u8;
+                if col >= 56 {
+                    return Err(Error::deserial(format!(
+                        "corrupted: pair column index is invalid: {row_col}"
+                    )));
+                }
                 // first undo the permutation
                 col = permutation[col as usize];
                 // then undo the rotation: old = (new + (offset+8)) mod 64
@@ -498,7 +546,7 @@ impl CompressedState {
 
             PairTable::from_slots(lg_k, num_pairs, pairs)
         };
-        UncompressedState { table, window }
+        Ok(UncompressedState { table, window })
     }
 }
 
@@ -507,12 +555,12 @@ fn uncompress_surprising_values(
     data_words: usize,
     num_pairs: u32,
     lg_k: u8,
-) -> Vec<u32> {
+) -> Result<Vec<u32>, Error> {
     let k = 1 << lg_k;
     let mut pairs = vec![0; num_pairs as usize];
     let num_base_bits = golomb_choose_number_of_base_bits(k + num_pairs, num_pairs as u64);
-    low_level_uncompress_pairs(&mut pairs, num_pairs, num_base_bits, data, data_words);
-    pairs
+    low_level_uncompress_pairs(&mut pairs, num_pairs, num_base_bits, data, data_words, k)?;
+    Ok(pairs)
 }
 
 fn uncompress_sliding_window(
@@ -521,7 +569,7 @@ fn uncompress_sliding_window(
     window: &mut Vec<u8>,
     lg_k: u8,
     num_coupons: u32,
-) {
+) -> Result<(), Error> {
     let k = 1 << lg_k;
     window.resize(k, 0);
     let pseudo_phase = determine_pseudo_phase(lg_k, num_coupons);
@@ -531,7 +579,7 @@ fn uncompress_sliding_window(
         data,
         data_words,
         &DECODING_TABLES_FOR_HIGH_ENTROPY_BYTE[pseudo_phase as usize],
-    );
+    )
 }
 
 fn low_level_uncompress_pairs(
@@ -540,7 +588,8 @@ fn low_level_uncompress_pairs(
     num_base_bits: u8,
     compressed_words: &[u32],
     num_compressed_words: usize,
-) {
+    k: u32,
+) -> Result<(), Error> {
     let mut word_index = 0;
     let mut bitbuf = 0;
     let mut bufbits = 0;
@@ -587,18 +636,23 @@ fn low_level_uncompress_pairs(
         if y_delta > 0 {
             predicted_col_index = 0;
         }
-        let row_index = predicted_row_index + y_delta;
-        let col_index = predicted_col_index + x_delta;
+        let row_index = predicted_row_index.saturating_add(y_delta);
+        let col_index = predicted_col_index.saturating_add(x_delta);
+        if row_index >= k || col_index > 63 || word_index > num_compressed_words {
+            return Err(Error::deserial(
+                "corrupted: compressed pairs do not fit the sketch",
+            ));
+        }
         let row_col = (row_index << 6) | (col_index as u32);
         pairs[pair_index as usize] = row_col;
         predicted_row_index = row_index;
         predicted_col_index = col_index + 1;
     }
 
-    debug_assert!(
-        word_index <= num_compressed_words,
-        "word_index: {word_index}, num_compressed_words: {num_compressed_words}",
-    );
+    if word_index > num_compressed_words {
+        return Err(Error::deserial("corrupted: compressed pairs are truncated"));
+    }
+    Ok(())
 }
 
 fn low_level_uncompress_bytes(
@@ -607,7 +661,7 @@ fn low_level_uncompress_bytes(
     compressed_words: &[u32],
     num_compressed_words: usize,
     decoding_table: &[u16],
-) {
+) -> Result<(), Error> {
     let mut word_index = 0;
     let mut bitbuf = 0;
     let mut bufbits = 0;
@@ -631,11 +685,11 @@ fn low_level_uncompress_bytes(
         bufbits -= code_word_length;
     }
 
-    // Buffer over-run should be impossible unless there is a bug.
-    debug_assert!(
-        word_index <= num_compressed_words,
-        "word_index: {word_index}, num_compressed_words: {num_compressed_words}",
-    );
+    // Buffer over-run is impossible for an image the compressor wrote.
+    if word_index > num_compressed_words {
+        return Err(Error::deserial("corrupted: compressed window is truncated"));
+    }
+    Ok(())
 }
 
 fn determine_pseudo_phase(lg_k: u8, num_coupons: u32) -> u8 {
@@ -719,6 +773,10 @@ fn read_unary(
             return subtotal + trailing_zeros as u64;
         }
         // The codeword was partial, so read some more
+        if *next_word_index > compressed_words.len() {
+            // past the end of the stream: the caller reports the truncation
+            return subtotal;
+        }
         subtotal += 8;
         *bufbits -= 8;
         *bitbuf >>= 8;
@@ -747,7 +805,9 @@ fn maybe_fill_bitbuf(
     minbits: u8,
 ) {
     if *bufbits < minbits {
-        *bitbuf |= (words[*word_index] as u64) << *bufbits;
+        // reading past the end yields zeros; callers compare word_index with the stream length
+        let word = words.get(*word_index).copied().unwrap_or(0);
+        *bitbuf |= (word as u64) << *bufbits;
         *word_index += 1;
         *bufbits += 32;
     }
